@@ -35,6 +35,18 @@ M = {
    "		s.nonce = noncePostHandshake\n		s.hsIndex = 2", "		s.hsIndex = 2")],
  "c06-initdone-accepted-in-any-state": [("p/p2pke/session.go",
    "	case !s.isInit && s.hsIndex == 1 && nonce == nonceInitDone:", "	case !s.isInit && s.hsIndex >= 1 && nonce == nonceInitDone:")],
+ "c08-p2pke-parsemessage-no-length-check": [("p/p2pke/messages.go",
+   "	if len(x) < 4 {\n		return nil, errors.Errorf(\"p2pke: too short to be message\")\n	}", "	if len(x) < 1 {\n		return nil, errors.Errorf(\"p2pke: too short to be message\")\n	}")],
+ "c08-p2pke-inithello-negative-start": [("p/p2pke/messages.go",
+   "	if start < 0 {\n		return nil, errors.New(\"InitHello has invalid length\")\n	}", "	if start < -4096 {\n		return nil, errors.New(\"InitHello has invalid length\")\n	}")],
+ "c08-uint16-demux-no-size-test": [("p/p2pmux/uint16mux.go",
+   "	if len(data) < size {\n		return 0, nil, errors.Errorf(\"too short to be uint16\")\n	}", "	if len(data) < 1 {\n		return 0, nil, errors.Errorf(\"too short to be uint16\")\n	}")],
+ "c08-frag-addpart-bounds-check-removed": [("s/fragswarm/fragswarm.go",
+   "	if int(part) >= len(a.parts) {\n		// a later packet contradicts the part count announced by the first one\n		return false\n	}\n", "")],
+ "c08-mbapp-negative-offset-check-removed": [("p/mbapp/fragment.go",
+   "	if offset < 0 {\n		return errors.Errorf(\"part of len=%d does not fit in buf of len=%d\", len(data), len(c.buf))\n	}\n", "")],
+ "c08-mbapp-total-size-not-bounded-by-mtu": [("p/mbapp/swarm.go",
+   "	if totalSize > uint32(s.mtu) {\n		return fmt.Errorf(\"total message size exceeds mtu %d\", s.mtu)\n	}", "	_ = fmt.Sprint")],
  "c10-frag-aggkey-without-addr": [("s/fragswarm/fragswarm.go",
    "	key := aggKey{addr: keyForAddr(x.Src), id: id}", "	key := aggKey{id: id}")],
  "c10-mbapp-allset-off-by-one": [("p/mbapp/bitmap.go",
